@@ -835,15 +835,37 @@ where
 
         // We want to set `updated_at` to `None`, signalling that other field values
         // cannot be read. The current value should be `Some(R0)` for some older revision.
-        match unsafe { (*data).updated_at.swap(None) } {
+        let last_updated_at = match unsafe { (*data).updated_at.swap(None) } {
             None => {
                 panic!("cannot delete write-locked id `{id:?}`; value leaked across threads");
             }
             Some(r) if r == zalsa.current_revision() => panic!(
                 "cannot delete read-locked id `{id:?}`; value leaked across threads or user functions not deterministic"
             ),
-            Some(_) => (),
+            Some(r) => r,
+        };
+
+        // Clearing the memos emits events, and the user's event callback may panic. Undo the deletion
+        // in that case: the query that created this struct did not complete, so the deletion is
+        // retried when it executes again (which would otherwise find the struct write-locked).
+        struct UndeleteOnUnwind<'a> {
+            updated_at: &'a OptionalAtomicRevision,
+            last_updated_at: Revision,
         }
+
+        impl Drop for UndeleteOnUnwind<'_> {
+            fn drop(&mut self) {
+                if crate::sync::thread::panicking() {
+                    self.updated_at.swap(Some(self.last_updated_at));
+                }
+            }
+        }
+
+        let _undelete_on_unwind = UndeleteOnUnwind {
+            // SAFETY: `updated_at` is never exclusively borrowed, so borrowing it is sound
+            updated_at: unsafe { &(*data).updated_at },
+            last_updated_at,
+        };
 
         // SAFETY: We have acquired the write lock by swapping `None` into `updated_at`
         let memo_table = unsafe { &mut (*data).memos };
